@@ -73,7 +73,7 @@ def make_worker(tier):
 
 def run(args):
     chk = common.Check('C06', 'exploration', args.tier)
-    fams = base.families_for(args.tier, args.families, quick=('S0', 'S1', 'S2', 'S5', 'S6'), thorough=('S0', 'S1', 'S2', 'S3', 'S4', 'S5', 'S6'))
+    fams = base.families_for(args.tier, args.families, quick=('S0', 'S1', 'S2', 'S4', 'S5', 'S6'), thorough=('S0', 'S1', 'S2', 'S3', 'S4', 'S5', 'S6'))
     stats, distinct, samples = base.run_sweep(chk, args, make_worker(args.tier), fams=fams, shape_tier='quick', opts=('-fwide-types',))
     cov = dict(evaluations=stats['evaluations'], distinct_nontrivial=len(distinct),
                rule='types of families %s compiled with -fwide-types (so INTEGER_t padding exists); for every value: each single transformation of the decoded structure '
